@@ -145,6 +145,8 @@ def clientStep (s : S) (t : Thr) (label : String) (case : Int) : S × Thr × Lis
       (s, finish t, [retEv t 0 e])
     else (fail s "close error read without closed flag", t, [])
   | "asyncWrite.pool-get" | "asyncWritev.pool-get" | "CtxWrite1.tr-deadline" | "CtxWritev.tr-deadline" => (s, t, [])
+  -- a foreign user of the buffer pool scribbling on buffers it obtained: five rounds, no channel action
+  | "ps" => if t.stage + 1 < 5 then (s, { t with stage := t.stage + 1 }, []) else (s, finish t, [retEv t 0 "nil"])
   | "asyncWrite.select" | "asyncWritev.select" =>
     if case == 2 then (act s (.enqueue (pkt t)) "enqueue", t, [])
     else if case == 0 then
